@@ -561,6 +561,8 @@ class Sqrt(Scalar):
     def __init__(self, data):
         super().__init__(data, name="sqrt")
         self.drawing_name = "sqrt({})".format(format_number(data))
+        root = self.array[0]  # self-adjoint iff the root, not the data, is real
+        self._dagger = None if root.conjugate() == root else False
 
     @property
     def array(self):
